@@ -1,3 +1,364 @@
-//! C02 bounded native checks (not written yet)
+//! C02 bounded: closest-point / distance queries compared with an exhaustive scan over all elements, on the REAL
+//! code (parry's tree search included).
+//! Curves 2D: every vertex sequence of length 2..=3 over the 3x3 integer grid (x force_closed) plus a fixed family of
+//! 4..=6-vertex polylines (long thin, nested spiral, nearly coincident runs 2^-10 apart, self-crossing, doubled back)
+//! and one 33-vertex zigzag; curves 3D: every vertex sequence of length 2..=3 over {0,1}^3 plus a fixed family.
+//! Meshes: box 2x3x4, box + disjoint appended box, box + nested appended box, non-planar two-triangle strip, two
+//! nearly coincident triangles, long thin quad; each solid and non-solid.  Query points: half-integer (family: quarter)
+//! grids reaching 1 beyond the bounding box -- so: on the entity, equidistant from several elements, inside (non-solid
+//! meshes only) -- plus far-outside points.  The oracle is a brute-force scan over all segments / triangles written
+//! here (plane projection + inside test + three segment projections; it shares no code with parry).
 use super::Report;
-pub fn run() -> Option<Report> { None }
+use crate::geom2::{Curve2, Point2};
+use crate::geom3::{Curve3, Iso3, Mesh, Point3, Vector3};
+use parry3d_f64::na;
+use parry3d_f64::na::{Translation3, UnitQuaternion};
+use std::f64::consts::PI;
+
+const EPS: f64 = 1e-9;
+fn le(a: f64, b: f64) -> bool { a <= b + EPS * (1.0 + a.abs().max(b.abs())) }
+fn eq(a: f64, b: f64) -> bool { (a - b).abs() <= EPS * (1.0 + a.abs().max(b.abs())) }
+
+fn seg_closest<const D: usize>(a: &na::Point<f64, D>, b: &na::Point<f64, D>, q: &na::Point<f64, D>) -> na::Point<f64, D> {
+    let ab = b - a;
+    let l2 = ab.norm_squared();
+    if l2 == 0.0 { return *a; }
+    let t = ((q - a).dot(&ab) / l2).clamp(0.0, 1.0);
+    a + ab * t
+}
+fn peq<const D: usize>(a: &na::Point<f64, D>, b: &na::Point<f64, D>) -> bool { (a - b).norm() <= EPS * (1.0 + a.coords.norm().max(b.coords.norm())) }
+
+/// closest point of triangle abc (non-degenerate) to p: foot on the plane if it is inside, else the best of the edges
+fn tri_closest(a: &Point3, b: &Point3, c: &Point3, p: &Point3) -> Point3 {
+    let n = (b - a).cross(&(c - a));
+    let pp = p - n * ((p - a).dot(&n) / n.norm_squared());
+    let s0 = (b - a).cross(&(pp - a)).dot(&n);
+    let s1 = (c - b).cross(&(pp - b)).dot(&n);
+    let s2 = (a - c).cross(&(pp - c)).dot(&n);
+    if s0 >= 0.0 && s1 >= 0.0 && s2 >= 0.0 { return pp; }
+    let mut best = seg_closest(a, b, p);
+    for (u, v) in [(b, c), (c, a)] {
+        let x = seg_closest(u, v, p);
+        if (p - x).norm() < (p - best).norm() { best = x; }
+    }
+    best
+}
+
+// ------------------------------------------------------------------------------------------------ curves
+fn check_curve2(r: &mut Report, name: &str, c: &Curve2, queries: &[Point2]) {
+    let v = c.points().to_vec();
+    let n = v.len();
+    let ls = c.lengths().clone();
+    for q in queries {
+        r.case();
+        let d = || format!("{} vertices {:?} query ({:?}, {:?})", name, v.iter().map(|p| (p.x, p.y)).collect::<Vec<_>>(), q.x, q.y);
+        let s = c.at_closest_to_point(q);
+        let p = s.point();
+        let mut dmin = f64::INFINITY;
+        let mut on = f64::INFINITY;
+        for i in 0..n - 1 {
+            dmin = dmin.min((q - seg_closest(&v[i], &v[i + 1], q)).norm());
+            on = on.min((p - seg_closest(&v[i], &v[i + 1], &p)).norm());
+        }
+        let dp = (q - p).norm();
+        r.check(on <= EPS * (1.0 + p.coords.norm()), "curve2: the reported closest point lies on the curve", d);
+        r.check(le(dp, dmin), "curve2: no vertex or edge is nearer to the query than the reported point (brute force over all segments)", d);
+        let dd = c.dist_to_point(q);
+        r.check(eq(dd, dp), "curve2: dist_to_point equals the distance from the query to the reported closest point", d);
+        r.check(eq(dd, dmin), "curve2: dist_to_point equals the brute-force minimum distance", d);
+        let (i, f) = (s.index(), s.fraction());
+        r.check(i + 1 < n && f >= 0.0 && f <= 1.0, "curve2: edge index in range and fraction in [0,1]", d);
+        if i + 1 < n {
+            let lp = v[i] + (v[i + 1] - v[i]) * f;
+            r.check(peq(&lp, &p), "curve2: edge index and fraction reproduce the reported point", d);
+            let e = (v[i + 1] - v[i]).normalize();
+            let dir = s.direction();
+            r.check(eq(dir.x, e.x) && eq(dir.y, e.y), "curve2: the reported direction is that edge's direction", d);
+            let nn = s.normal();
+            r.check(eq(nn.x, e.y) && eq(nn.y, -e.x), "curve2: the reported normal is that edge's normal (direction turned by -90 degrees)", d);
+            r.check(eq(s.length_along(), ls[i] + (p - v[i]).norm()), "curve2: length_along is the arc length of the reported point", d);
+        }
+    }
+}
+
+fn check_curve3(r: &mut Report, name: &str, c: &Curve3, queries: &[Point3]) {
+    let v = c.points().to_vec();
+    let n = v.len();
+    let ls = c.lengths().to_vec();
+    for q in queries {
+        r.case();
+        let d = || format!("{} vertices {:?} query ({:?}, {:?}, {:?})", name, v.iter().map(|p| (p.x, p.y, p.z)).collect::<Vec<_>>(), q.x, q.y, q.z);
+        let s = c.at_closest_to_point(q);
+        let p = s.point();
+        let mut dmin = f64::INFINITY;
+        let mut on = f64::INFINITY;
+        for i in 0..n - 1 {
+            dmin = dmin.min((q - seg_closest(&v[i], &v[i + 1], q)).norm());
+            on = on.min((p - seg_closest(&v[i], &v[i + 1], &p)).norm());
+        }
+        let dp = (q - p).norm();
+        r.check(on <= EPS * (1.0 + p.coords.norm()), "curve3: the reported closest point lies on the curve", d);
+        r.check(le(dp, dmin), "curve3: no vertex or edge is nearer to the query than the reported point (brute force over all segments)", d);
+        let dd = c.dist_to_point(q);
+        r.check(eq(dd, dp), "curve3: dist_to_point equals the distance from the query to the reported closest point", d);
+        r.check(eq(dd, dmin), "curve3: dist_to_point equals the brute-force minimum distance", d);
+        let (i, f) = (s.index(), s.fraction());
+        r.check(i + 1 < n && f >= 0.0 && f <= 1.0, "curve3: edge index in range and fraction in [0,1]", d);
+        if i + 1 < n {
+            let lp = v[i] + (v[i + 1] - v[i]) * f;
+            r.check(peq(&lp, &p), "curve3: edge index and fraction reproduce the reported point", d);
+            let e = (v[i + 1] - v[i]).normalize();
+            let dir = s.direction();
+            r.check(eq(dir.x, e.x) && eq(dir.y, e.y) && eq(dir.z, e.z), "curve3: the reported direction is that edge's direction", d);
+            r.check(eq(s.length_along(), ls[i] + (p - v[i]).norm()), "curve3: length_along is the arc length of the reported point", d);
+        }
+    }
+}
+
+fn grid2(x0: f64, x1: f64, y0: f64, y1: f64, step: f64) -> Vec<Point2> {
+    let mut out = vec![];
+    let (nx, ny) = (((x1 - x0) / step).round() as i64, ((y1 - y0) / step).round() as i64);
+    for i in 0..=nx { for j in 0..=ny { out.push(Point2::new(x0 + i as f64 * step, y0 + j as f64 * step)); } }
+    out
+}
+fn grid3(lo: (f64, f64, f64), hi: (f64, f64, f64), step: (f64, f64, f64)) -> Vec<Point3> {
+    let mut out = vec![];
+    let n = |a: f64, b: f64, s: f64| ((b - a) / s).round() as i64;
+    for i in 0..=n(lo.0, hi.0, step.0) { for j in 0..=n(lo.1, hi.1, step.1) { for k in 0..=n(lo.2, hi.2, step.2) {
+        out.push(Point3::new(lo.0 + i as f64 * step.0, lo.1 + j as f64 * step.1, lo.2 + k as f64 * step.2));
+    } } }
+    out
+}
+
+fn curves(r: &mut Report) {
+    // 2D, exhaustive small ones
+    let g: Vec<Point2> = (0..9).map(|k| Point2::new((k % 3) as f64, (k / 3) as f64)).collect();
+    let mut qs = grid2(-1.0, 3.0, -1.0, 3.0, 0.5);
+    qs.extend([Point2::new(100.0, -57.0), Point2::new(-40.0, 1.0), Point2::new(1.0, 64.0), Point2::new(0.75, 0.25), Point2::new(1.25, 1.75)]);
+    for a in 0..9 { for b in 0..9 {
+        for fc in [false, true] {
+            if let Ok(c) = Curve2::from_points(&[g[a], g[b]], 1e-6, fc) { check_curve2(r, "Curve2(2 grid points)", &c, &qs); }
+        }
+        for cc in 0..9 { for fc in [false, true] {
+            if let Ok(c) = Curve2::from_points(&[g[a], g[b], g[cc]], 1e-6, fc) { check_curve2(r, "Curve2(3 grid points)", &c, &qs); }
+        } }
+    } }
+    // 2D family
+    let h = 1.0 / 1024.0;
+    let p = |x: f64, y: f64| Point2::new(x, y);
+    let mut fam: Vec<(&str, Vec<Point2>)> = vec![
+        ("long thin", vec![p(0.0, 0.0), p(16.0, 0.0), p(16.0, 0.25), p(0.0, 0.25), p(0.0, 0.5), p(16.0, 0.5)]),
+        ("nested spiral", vec![p(0.0, 0.0), p(4.0, 0.0), p(4.0, 4.0), p(0.0, 4.0), p(0.0, 1.0), p(3.0, 1.0)]),
+        ("nearly coincident runs", vec![p(0.0, 0.0), p(4.0, 0.0), p(4.0, h), p(0.0, h), p(0.0, 2.0 * h), p(4.0, 2.0 * h)]),
+        ("self-crossing", vec![p(0.0, 0.0), p(2.0, 2.0), p(2.0, 0.0), p(0.0, 2.0)]),
+        ("doubled back", vec![p(0.0, 0.0), p(4.0, 0.0), p(1.0, 0.0), p(1.0, 3.0), p(1.0, 1.0)]),
+        ("short and long edges", vec![p(0.0, 0.0), p(0.25, 0.0), p(0.25, 0.25), p(16.0, 0.25), p(16.0, 4.0)]),
+    ];
+    fam.push(("33-vertex zigzag", (0..33).map(|k| p(k as f64 * 0.5, if k % 2 == 0 { 0.0 } else { 1.0 + (k % 5) as f64 * 0.25 })).collect()));
+    let mut fq = grid2(-1.0, 17.0, -1.0, 5.0, 0.5);
+    fq.extend(grid2(-0.25, 4.25, -0.25, 0.75, 0.125));
+    fq.extend([p(2.0, h / 2.0), p(2.0, 1.5 * h), p(2.0, h), p(1.0, 0.25 * h), p(3.0, 1.75 * h), p(200.0, 100.0), p(-64.0, 0.125)]);
+    for (name, pts) in fam.iter() {
+        for fc in [false, true] {
+            if let Ok(c) = Curve2::from_points(pts, 1e-6, fc) { check_curve2(r, name, &c, &fq); }
+        }
+    }
+    // 3D, exhaustive small ones
+    let g3: Vec<Point3> = (0..8).map(|k| Point3::new((k % 2) as f64, ((k / 2) % 2) as f64, (k / 4) as f64)).collect();
+    let mut q3 = grid3((-1.0, -1.0, -1.0), (2.0, 2.0, 2.0), (0.5, 0.5, 0.5));
+    q3.extend([Point3::new(100.0, -57.0, 20.0), Point3::new(0.25, 0.75, 0.125), Point3::new(-30.0, 0.5, 0.5)]);
+    for a in 0..8 { for b in 0..8 {
+        if let Ok(c) = Curve3::from_points(&[g3[a], g3[b]], 1e-6) { check_curve3(r, "Curve3(2 cube corners)", &c, &q3); }
+        for cc in 0..8 {
+            if let Ok(c) = Curve3::from_points(&[g3[a], g3[b], g3[cc]], 1e-6) { check_curve3(r, "Curve3(3 cube corners)", &c, &q3); }
+        }
+    } }
+    let p3 = |x: f64, y: f64, z: f64| Point3::new(x, y, z);
+    let fam3: Vec<(&str, Vec<Point3>)> = vec![
+        ("staircase", vec![p3(0.0, 0.0, 0.0), p3(2.0, 0.0, 0.0), p3(2.0, 2.0, 0.0), p3(2.0, 2.0, 2.0), p3(0.0, 2.0, 2.0), p3(0.0, 0.0, 2.0)]),
+        ("long thin 3D", vec![p3(0.0, 0.0, 0.0), p3(16.0, 0.0, 0.0), p3(16.0, 0.25, 0.25), p3(0.0, 0.25, 0.25), p3(0.0, 0.5, 0.0), p3(16.0, 0.5, 0.0)]),
+        ("nearly coincident 3D", vec![p3(0.0, 0.0, 0.0), p3(4.0, 0.0, 0.0), p3(4.0, 0.0, h), p3(0.0, 0.0, h), p3(0.0, h, h), p3(4.0, h, h)]),
+        ("closed square loop", vec![p3(0.0, 0.0, 1.0), p3(2.0, 0.0, 1.0), p3(2.0, 2.0, 1.0), p3(0.0, 2.0, 1.0), p3(0.0, 0.0, 1.0)]),
+        ("33-vertex helix-like", (0..33).map(|k| p3((k % 4 / 2) as f64 * 2.0, ((k + 1) % 4 / 2) as f64 * 2.0, k as f64 * 0.25)).collect()),
+    ];
+    let mut fq3 = grid3((-1.0, -1.0, -1.0), (5.0, 3.0, 3.0), (0.5, 0.5, 0.5));
+    fq3.extend(grid3((0.0, -0.25, -0.25), (16.0, 0.75, 0.5), (2.0, 0.125, 0.125)));
+    fq3.extend([p3(2.0, 0.0, h / 2.0), p3(2.0, h / 2.0, h), p3(1.0, 0.75 * h, 0.25 * h), p3(200.0, 100.0, -50.0), p3(1.0, 1.0, 1.0), p3(1.0, 1.0, 4.0)]);
+    for (name, pts) in fam3.iter() {
+        if let Ok(c) = Curve3::from_points(pts, 1e-6) { check_curve3(r, name, &c, &fq3); }
+    }
+}
+
+// ------------------------------------------------------------------------------------------------ meshes
+struct Brute { d: Vec<f64>, cp: Vec<Point3>, dmin: f64 }
+fn tris(m: &Mesh) -> Vec<[Point3; 3]> { m.faces().iter().map(|f| [m.vertices()[f[0] as usize], m.vertices()[f[1] as usize], m.vertices()[f[2] as usize]]).collect() }
+fn brute(t: &[[Point3; 3]], q: &Point3) -> Brute {
+    let cp: Vec<Point3> = t.iter().map(|x| tri_closest(&x[0], &x[1], &x[2], q)).collect();
+    let d: Vec<f64> = cp.iter().map(|c| (q - c).norm()).collect();
+    let dmin = d.iter().cloned().fold(f64::INFINITY, f64::min);
+    Brute { d, cp, dmin }
+}
+fn tri_normal(t: &[Point3; 3]) -> Vector3 { (t[1] - t[0]).cross(&(t[2] - t[0])).normalize() }
+/// unsigned angle between a and b in [0, pi] (0 for a zero vector, as nalgebra defines it)
+fn angle(a: &Vector3, b: &Vector3) -> f64 { if a.norm() == 0.0 || b.norm() == 0.0 { 0.0 } else { a.cross(b).norm().atan2(a.dot(b)) } }
+
+#[derive(PartialEq, Clone, Copy)]
+enum Tri { Yes, No, Unsure }
+/// is the offset q - cp within max_angle of +/- the face normal? (margin 1e-6 rad around the threshold = Unsure)
+fn accepts(n: &Vector3, off: &Vector3, max_angle: f64) -> Tri {
+    let a = angle(n, off);
+    let dev = a.min(PI - a);
+    if dev < max_angle - 1e-6 { Tri::Yes } else if dev > max_angle + 1e-6 { Tri::No } else { Tri::Unsure }
+}
+
+fn check_mesh(r: &mut Report, name: &str, m: &Mesh, inside: &dyn Fn(&Point3) -> bool, queries: &[Point3]) {
+    let t = tris(m);
+    let nf = t.len();
+    let normals: Vec<Vector3> = t.iter().map(tri_normal).collect();
+    let name = format!("{} (is_solid={})", name, m.is_solid());
+    let tr = Iso3::from_parts(Translation3::new(1.0, -2.0, 3.0), UnitQuaternion::identity());
+    let rot = Iso3::from_parts(Translation3::new(-1.0, 0.5, 2.0), UnitQuaternion::from_axis_angle(&Vector3::z_axis(), PI / 2.0));
+    let angles = [0.1, 0.5, 1.0, 1.5, 2.0];
+    let mut used: Vec<Point3> = vec![];
+    for q in queries {
+        // the statement quantifies over inside points for non-solid meshes only
+        if m.is_solid() && inside(q) { continue; }
+        used.push(*q);
+        r.case();
+        let d = || format!("{} query ({:?}, {:?}, {:?})", name, q.x, q.y, q.z);
+        let b = brute(&t, q);
+        let sp = m.surf_closest_to(q);
+        let on: Vec<usize> = (0..nf).filter(|&f| (sp.point - tri_closest(&t[f][0], &t[f][1], &t[f][2], &sp.point)).norm() <= EPS * (1.0 + sp.point.coords.norm())).collect();
+        r.check(!on.is_empty(), "mesh: the reported closest point lies on a face of the mesh", d);
+        let dp = (q - sp.point).norm();
+        r.check(le(dp, b.dmin), "mesh: no vertex, edge or face is nearer to the query than the reported point (brute force over all triangles)", d);
+        r.check(on.iter().any(|&f| (normals[f] - sp.normal.into_inner()).norm() <= 1e-9), "mesh: the reported normal is the normal of a face containing the reported point", d);
+        let pc = m.point_closest_to(q);
+        r.check(peq(&pc, &sp.point), "mesh: point_closest_to and surf_closest_to report the same point", d);
+
+        // distance cap: caps well away from the true distance
+        let mut caps = vec![b.dmin + 0.5, 2.0 * b.dmin + 1.0];
+        if b.dmin > 1e-6 { caps.push(0.5 * b.dmin); }
+        for c in [0.25, 1.25, 5.0] { if (b.dmin - c).abs() > 1e-3 { caps.push(c); } }
+        for cap in caps.iter() {
+            let dc = || format!("{} cap {:?} (true distance {:?})", d(), cap, b.dmin);
+            let res = m.project_with_max_dist(q, *cap);
+            r.check(res.is_some() == (b.dmin <= *cap), "mesh: with a distance cap a result is returned exactly when the true distance is within the cap", dc);
+            if let Some((prj, id, loc)) = res {
+                r.check((id as usize) < nf, "mesh: capped projection reports a face of the mesh", dc);
+                r.check(le((q - prj.point).norm(), b.dmin), "mesh: capped projection reports a point at the minimum distance", dc);
+                if (id as usize) < nf {
+                    match loc.barycentric_coordinates() {
+                        Some(bc) => {
+                            let f = &t[id as usize];
+                            let rp = Point3::from(f[0].coords * bc[0] + f[1].coords * bc[1] + f[2].coords * bc[2]);
+                            r.check(bc.iter().all(|x| *x >= -EPS && *x <= 1.0 + EPS) && eq(bc[0] + bc[1] + bc[2], 1.0), "mesh: barycentric location is a convex combination", dc);
+                            r.check(peq(&rp, &prj.point), "mesh: face id and barycentric location reproduce the reported point", dc);
+                        }
+                        None => r.check(false, "mesh: the reported location has barycentric coordinates", dc),
+                    }
+                }
+            }
+        }
+
+        // angle-filtered projection
+        for (ti, tf) in [None, Some(&tr), Some(&rot)].iter().enumerate() {
+            let (arg, qq) = match tf { None => (*q, *q), Some(x) => { let a = x.inverse() * q; (a, *x * a) } };
+            let bb = if ti == 0 { brute(&t, q) } else { brute(&t, &qq) };
+            // a query within rounding of the surface but not exactly on it (oblique faces, rotated queries) has an
+            // offset without a meaningful direction: not decidable by this oracle
+            if bb.dmin != 0.0 && bb.dmin < 1e-6 { continue; }
+            // exactly on the surface: did parry return the query itself (offset exactly zero) or a point that differs
+            // from it by rounding (face coordinates that are not dyadic)?
+            let exact_zero = bb.dmin == 0.0 && m.point_closest_to(&qq) == qq;
+            let near: Vec<usize> = (0..nf).filter(|&f| bb.d[f] <= bb.dmin + EPS * (1.0 + bb.dmin)).collect();
+            for &ma in angles.iter() {
+                let da = || format!("{} transform {} max_dist {:?} max_angle {:?}", d(), ["None", "Some(translation (1,-2,3))", "Some(Rz90 then +(-1,0.5,2))"][ti], bb.dmin + 0.5, ma);
+                let verdicts: Vec<Tri> = near.iter().map(|&f| accepts(&normals[f], &(qq - bb.cp[f]), ma)).collect();
+                let res = m.project_with_tol(&arg, bb.dmin + 0.5, ma, *tf);
+                if exact_zero {
+                    r.check(res.is_some(), "mesh: project_with_tol accepts a query exactly on the surface (offset exactly zero) within the distance cap", da);
+                } else if bb.dmin == 0.0 {
+                    // own clause name: the real code tests the direction of a rounding-sized offset
+                    if ma < PI / 2.0 {
+                        r.check(res.is_some(), "[on-surface query, projection off by rounding] project_with_tol accepts a query exactly on the surface", da);
+                    }
+                } else if verdicts.iter().all(|v| *v == Tri::Yes) {
+                    r.check(res.is_some(), "mesh: project_with_tol accepts a point whose offset is within the stated angle of the face normal", da);
+                } else if verdicts.iter().all(|v| *v == Tri::No) {
+                    r.check(res.is_none(), "mesh: project_with_tol rejects a point whose offset is NOT within the stated angle of the face normal", da);
+                } else if let Some((_, id, _)) = res {
+                    // several nearest faces with different verdicts: the reported face must be one that does not reject
+                    let k = near.iter().position(|&f| f == id as usize);
+                    r.check(k.map(|k| verdicts[k] != Tri::No).unwrap_or(false), "mesh: project_with_tol accepted with a face whose normal is not within the stated angle of the offset", da);
+                } else {
+                    r.check(verdicts.iter().any(|v| *v != Tri::Yes), "mesh: project_with_tol rejected although every nearest face accepts", da);
+                }
+                if let Some((prj, id, _)) = res {
+                    r.check((id as usize) < nf && le((qq - prj.point).norm(), bb.dmin), "mesh: project_with_tol reports a point at the minimum distance", da);
+                }
+                if bb.dmin > 1e-6 {
+                    r.check(m.project_with_tol(&arg, 0.5 * bb.dmin, ma, *tf).is_none(), "mesh: project_with_tol returns nothing when the true distance exceeds the distance cap", da);
+                }
+            }
+        }
+    }
+    // indices_in_tol == the indices accepted by project_with_tol
+    for tf in [None, Some(&tr), Some(&rot)] {
+        for &ma in angles.iter() { for cap in [0.3, 1.25] {
+            let got = m.indices_in_tol(&used, cap, ma, tf);
+            let want: Vec<usize> = (0..used.len()).filter(|&i| m.project_with_tol(&used[i], cap, ma, tf).is_some()).collect();
+            r.check(got == want, "mesh: indices_in_tol lists exactly the indices that project_with_tol accepts, in order", || format!("{} all queries, max_dist {:?} max_angle {:?} transform {}", name, cap, ma, tf.is_some()));
+        } }
+    }
+}
+
+fn meshes(r: &mut Report) {
+    let p = |x: f64, y: f64, z: f64| Point3::new(x, y, z);
+    let shifted = |w: f64, h: f64, d: f64, s: (f64, f64, f64), solid: bool| { let mut b = Mesh::create_box(w, h, d, solid); b.transform(&Iso3::translation(s.0, s.1, s.2)); b };
+    let in_box = |q: &Point3, lo: (f64, f64, f64), hi: (f64, f64, f64)| q.x > lo.0 && q.x < hi.0 && q.y > lo.1 && q.y < hi.1 && q.z > lo.2 && q.z < hi.2;
+    let far = [p(50.0, -30.0, 20.0), p(5.0, 1.5, 2.0), p(-4.0, -4.0, -4.0), p(1.0, 1.0, -3.0), p(1.0, 8.0, 2.0), p(0.75, 1.25, 1.125), p(0.125, 2.5, 3.875)];
+    let h = 1.0 / 1024.0;
+    for solid in [false, true] {
+        // 1. box
+        let m = Mesh::create_box(2.0, 3.0, 4.0, solid);
+        let mut qs = grid3((-1.0, -1.0, -1.0), (3.0, 4.0, 5.0), (0.5, 0.5, 0.5));
+        qs.extend(far);
+        check_mesh(r, "box 2x3x4", &m, &|q| in_box(q, (0.0, 0.0, 0.0), (2.0, 3.0, 4.0)), &qs);
+        // 2. box + disjoint box
+        let mut m = Mesh::create_box(2.0, 3.0, 4.0, solid);
+        m.append(&shifted(1.0, 1.0, 1.0, (3.0, 1.0, 1.0), solid)).unwrap();
+        let mut qs = grid3((-1.0, -1.0, -1.0), (5.0, 4.0, 5.0), (0.5, 0.5, 1.0));
+        qs.extend(far);
+        check_mesh(r, "box 2x3x4 + appended unit box at (3,1,1)", &m, &|q| in_box(q, (0.0, 0.0, 0.0), (2.0, 3.0, 4.0)) || in_box(q, (3.0, 1.0, 1.0), (4.0, 2.0, 2.0)), &qs);
+        // 3. box + nested box
+        let mut m = Mesh::create_box(2.0, 2.0, 2.0, solid);
+        m.append(&shifted(1.0, 1.0, 1.0, (0.5, 0.5, 0.5), solid)).unwrap();
+        let mut qs = grid3((-0.5, -0.5, -0.5), (2.5, 2.5, 2.5), (0.25, 0.25, 0.5));
+        qs.extend(far);
+        check_mesh(r, "box 2x2x2 + nested appended unit box at (0.5,0.5,0.5)", &m, &|q| in_box(q, (0.0, 0.0, 0.0), (2.0, 2.0, 2.0)), &qs);
+        // 4. non-planar two-triangle strip
+        let m = Mesh::new(vec![p(0.0, 0.0, 0.0), p(2.0, 0.0, 0.0), p(0.0, 2.0, 0.0), p(2.0, 2.0, 1.0)], vec![[0, 1, 2], [1, 3, 2]], solid);
+        let mut qs = grid3((-1.0, -1.0, -1.0), (3.0, 3.0, 2.0), (0.5, 0.5, 0.5));
+        qs.extend(far);
+        check_mesh(r, "two-triangle strip", &m, &|_| false, &qs);
+        // 5. two nearly coincident triangles
+        let m = Mesh::new(vec![p(0.0, 0.0, 0.0), p(4.0, 0.0, 0.0), p(0.0, 4.0, 0.0), p(0.0, 0.0, h), p(4.0, 0.0, h), p(0.0, 4.0, h)], vec![[0, 1, 2], [3, 4, 5]], solid);
+        let mut qs = grid3((-1.0, -1.0, -0.5), (5.0, 5.0, 0.5), (0.5, 0.5, 0.25));
+        qs.extend([p(1.0, 1.0, h / 4.0), p(1.0, 1.0, 0.75 * h), p(1.0, 1.0, h), p(1.0, 1.0, 2.0 * h), p(3.0, 3.0, 0.75 * h), p(-1.0, 1.0, 0.25 * h)]);
+        qs.extend(far);
+        check_mesh(r, "two parallel triangles 2^-10 apart", &m, &|_| false, &qs);
+        // 6. long thin quad
+        let m = Mesh::new(vec![p(0.0, 0.0, 0.0), p(16.0, 0.0, 0.0), p(16.0, 0.25, 0.0), p(0.0, 0.25, 0.0)], vec![[0, 1, 2], [0, 2, 3]], solid);
+        let mut qs = grid3((-1.0, -0.5, -0.5), (17.0, 0.75, 0.5), (0.5, 0.125, 0.25));
+        qs.extend(far);
+        check_mesh(r, "long thin quad 16x0.25", &m, &|_| false, &qs);
+    }
+}
+
+pub fn run() -> Option<Report> {
+    let mut r = Report::new("curves: all 2..=3-vertex sequences over the 3x3 grid (2D, x force_closed) / over {0,1}^3 (3D), 7 + 5 fixed polylines with 4..=33 vertices (long thin, nested, nearly coincident, self-crossing, doubled back); meshes: box, box + disjoint box, box + nested box, two-triangle strip, two nearly coincident triangles, long thin quad, solid and non-solid; queries on half/quarter-integer grids reaching 1 beyond the bounding box plus far-outside points (inside points for non-solid meshes only); caps 0.5*d, d+0.5, 2d+1, 0.25, 1.25, 5 (never within 1e-3 of the true distance d); max_angle in {0.1, 0.5, 1, 1.5, 2} rad with a 1e-6 rad undecided margin; transforms None / translation / quarter turn + translation; oracle = brute force over all segments / triangles, tolerance 1e-9 relative");
+    curves(&mut r);
+    meshes(&mut r);
+    Some(r)
+}
